@@ -341,6 +341,8 @@ gen(Src& s, int size)
   c["scanner"] = vg::gen_scanner(s, so);
   shared_ptr<Scanner> sc = vg::make_scanner(c["scanner"]);
   vg::PdiOpts po;
+  po.allow_asym_segments = true;
+  po.allow_clamped_seg0 = true;
   c["pdi"] = vg::gen_pdi(s, *sc, po);
   c["pdi"]["arccorr"] = false;
   return c;
@@ -409,6 +411,14 @@ fixed_cases(int tier)
                        { "trim", json::object() } };
           c["ring_stride"] = ring_stride;
           v.push_back(c);
+          if (&cf == &cfgs[0] && rings > 2)
+            { // the same data with an asymmetric segment range (more negative than positive segments, and vice versa)
+              json c2 = c;
+              c2["pdi"]["trim"] = { { "max_seg", 1 }, { "min_seg", -2 }, { "tang_cut", 1 } };
+              v.push_back(c2);
+              c2["pdi"]["trim"] = { { "max_seg", 2 }, { "min_seg", 0 }, { "tang_cut", 0 } };
+              v.push_back(c2);
+            }
         }
     }
   return v;
